@@ -323,4 +323,70 @@ theorem missingRequiredError_justified (c : Cmd) (u : UInfo) (m : ArgMap) (pot :
         obtain ⟨rfl, _⟩ := h
         exact requiredUsageFrom_justified c u _ _ m true _ hr
 
+/-! ### what an `ArgumentConflict` error of the validator is about -/
+
+theorem conflictGo_about (c : Cmd) (u : UInfo) (m : ArgMap) (pot : List (Id × List Id)) :
+    ∀ (ids : List Id) (ia : Bytes) (prior : List Bytes) (line : Bytes),
+    conflictError.go c u m pot ids = some (some (ia, prior, line)) →
+    ∃ id ∈ ids, ∃ a confs, c.find id = some a ∧ ia = displayArg u a ∧
+      gatherConflicts c pot id = some confs ∧ confs ≠ [] ∧ conflictUsage c u m confs = some line := by
+  intro ids
+  induction ids with
+  | nil => intro ia prior line h; simp [conflictError.go] at h
+  | cons id rest ih =>
+    intro ia prior line h
+    unfold conflictError.go at h
+    split at h
+    · cases h
+    · obtain ⟨id', hid', rest'⟩ := ih ia prior line h
+      exact ⟨id', List.mem_cons_of_mem _ hid', rest'⟩
+    · next confs hne hg =>
+      split at h
+      · next others former line' ho hf hl =>
+        cases hm : (others.mapM fun i => (c.find i).map (displayArg u)) with
+        | none => rw [hm] at h; cases h
+        | some strs =>
+          rw [hm] at h
+          simp only [Option.map_some, Option.some.injEq, Prod.mk.injEq] at h
+          obtain ⟨rfl, _, rfl⟩ := h
+          exact ⟨id, List.mem_cons_self, former, confs, hf, rfl, hg, hne, hl⟩
+      · cases h
+
+/-- **a validator conflict is about an argument that is on the line**: the `InvalidArg` of the error is the display of
+an argument whose id is explicitly present in the matches; in the non-exclusive case it has a non-empty list of
+gathered conflicts (each of them explicitly present and declared, `C10.conflict_justified`) and the usage line is the
+one `build_conflict_err_usage` assembles for them -/
+theorem conflictError_about_present (c : Cmd) (u : UInfo) (m : ArgMap) (pot : List (Id × List Id))
+    (ia : Bytes) (prior : List Bytes) (line : Bytes)
+    (h : conflictError c u m pot = some (some (ia, prior, line))) :
+    ∃ a, a ∈ c.args ∧ a.id ∈ explicitIds m ∧ ia = displayArg u a := by
+  unfold conflictError at h
+  simp only at h
+  split at h
+  · next a hex =>
+    cases hl : usageWithTitle c u (requiredGraph c) [] with
+    | none => rw [hl] at h; cases h
+    | some l =>
+      rw [hl] at h
+      simp only [Option.map_some, Option.some.injEq, Prod.mk.injEq] at h
+      obtain ⟨rfl, _, _⟩ := h
+      split at hex
+      · cases hex
+      · have hmem := List.mem_of_head? hex
+        obtain ⟨id, hid, hf⟩ := List.mem_filterMap.mp hmem
+        cases hfi : c.find id with
+        | none => rw [hfi] at hf; cases hf
+        | some a' =>
+          rw [hfi] at hf
+          simp only [Option.filter] at hf
+          split at hf
+          · simp only [Option.some.injEq] at hf
+            subst hf
+            obtain ⟨hma, hida⟩ := C03.find_mem hfi
+            exact ⟨a', hma, hida ▸ hid, rfl⟩
+          · cases hf
+  · obtain ⟨id, hid, a, confs, hf, hia, _, _, _⟩ := conflictGo_about c u m pot _ ia prior line h
+    obtain ⟨hma, hida⟩ := C03.find_mem hf
+    exact ⟨a, hma, hida ▸ (List.mem_filter.mp hid).1, hia⟩
+
 end Clap.C10M
